@@ -272,10 +272,115 @@ def worker(item):
         finally:
             c.close()
         acc.sample({'dll': dll, 'configuration': cfg, 'flags': [False, True, False]})
+    elif kind == 'dynamic':
+        _k, dll, seed = item
+        dynamic(dll, seed, acc)
     else:
         _k, dll, wins, seed = item
         bystander(dll, wins, seed, acc)
     return acc
+
+
+DYN_KINDS = ['U', 'ca', 'U', 'I', 'ca']      # registration order of the listeners of the dynamic scenarios
+DYN_ACTIONS = ['unsub_self', 'unsub_next', 'unsub_prev', 'resub_self']
+
+
+def dynamic_one(dll, k, action, first, keep=False):
+    """listeners that unsubscribe (themselves / a neighbour) from inside their callback while a frame is being delivered:
+    every *other* bound listener still gets that frame exactly once, and the following frame reaches exactly the listeners
+    still registered"""
+    w = rt.World()
+    rt.activate(w)
+    try:
+        bus = Bus(w, base_lat=1e-4)
+        st = Stack(bus, 'X', dll=dll)
+        ca = st.add_ca(0x10, name_value=0x4711)
+        ghost = bus.ghost_node()
+        calls = []
+        subs = []                  # [kind, callback, registered]
+        state = {'armed': True}
+
+        def unsub(j):
+            kind, cb, reg = subs[j]
+            if reg:
+                (ca if kind == 'ca' else st.ecu).unsubscribe(cb)
+                subs[j][2] = False
+
+        def sub(j):
+            kind, cb, reg = subs[j]
+            if kind == 'ca':
+                ca.subscribe(cb)
+            elif kind == 'I':
+                st.ecu.subscribe(cb, 0x10)
+            else:
+                st.ecu.subscribe(cb)
+            subs[j][2] = True
+
+        def make(j):
+            def cb(priority, pgn, sa, timestamp, data):
+                calls.append(j)
+                if j == k and state['armed']:
+                    state['armed'] = False
+                    state['touched'] = {'unsub_self': [k], 'resub_self': [k], 'unsub_next': [(k + 1) % len(subs)],
+                                        'unsub_prev': [(k - 1) % len(subs)]}[action]
+                    if action in ('unsub_self', 'resub_self'):
+                        unsub(k)
+                        if action == 'resub_self':
+                            sub(k)
+                    elif action == 'unsub_next':
+                        unsub((k + 1) % len(subs))
+                    else:
+                        unsub((k - 1) % len(subs))
+            return cb
+
+        for j, kind in enumerate(DYN_KINDS):
+            subs.append([kind, None, False])
+            subs[j][1] = make(j)
+            sub(j)
+        w.run_for(0.005)
+        probs = []
+        frames = [('broadcast', (6 << 26) | (0xFE << 16) | (0x42 << 8) | FOREIGN_SA),
+                  ('to the CA', (6 << 26) | (0xD0 << 16) | (0x10 << 8) | FOREIGN_SA)]
+        if first == 'ds':
+            frames.reverse()
+        for n, (name, can_id) in enumerate(frames + frames):
+            before = [r for (_k, _c, r) in subs]
+            state.pop('touched', None)
+            del calls[:]
+            ghost.send(can_id, bytes([n, 2, 3, 4, 5, 6, 7, 8]))
+            w.run_for(0.002)
+            touched = state.get('touched', [])
+            for j in range(len(subs)):
+                got = calls.count(j)
+                if j in touched and action != 'unsub_self':
+                    # unsubscribed by a neighbour / re-registered during this delivery: before or after its turn
+                    if got > 1:
+                        probs.append("frame %d (%s): listener %d called %d times" % (n, name, j, got))
+                    continue
+                want = 1 if before[j] else 0
+                if got != want:
+                    probs.append("frame %d (%s): listener %d (%s, registered: %s) was called %d time(s) while listener %d %s from inside its callback"
+                                 % (n, name, j, DYN_KINDS[j], before[j], got, k, action) if touched else
+                                 "frame %d (%s): listener %d (%s, registered: %s) was called %d time(s)" % (n, name, j, DYN_KINDS[j], before[j], got))
+        if st.job.exc is not None:
+            probs.append("job thread dead: %s" % st.job.exc_type)
+        return probs
+    finally:
+        w.shutdown()
+
+
+def dynamic(dll, seed, acc):
+    for k in range(len(DYN_KINDS)):
+        for action in DYN_ACTIONS:
+            for first in ('bc', 'ds'):
+                probs = dynamic_one(dll, k, action, first)
+                sc = {'kind': 'dynamic', 'dll': dll, 'k': k, 'action': action, 'first': first}
+                acc.case(repr(sc), outcome=len(probs))
+                if probs:
+                    import re
+                    acc.violation(re.sub(r'\d+', 'N', probs[0].split(' while ')[0]) + (' while another listener unsubscribes inside its callback' if ' while ' in probs[0] else ''),
+                                  sc, None, probs[:3])
+    acc.sample({'dll': dll, 'dynamic': 'listener k of %r performs %r inside its callback' % (DYN_KINDS, DYN_ACTIONS)})
 
 
 def bystander(dll, wins, seed, acc):
@@ -337,6 +442,7 @@ def run(tier, seed):
                 items.append(('pfsweep', dll, ci, seed))
         for wins in ((1, 1), (2, 3), (255, 255)):
             items.append(('bystander', dll, wins, seed))
+        items.append(('dynamic', dll, seed))
     return run_check(PROP, tier, seed, 'exploration', items, worker, RULE, ASSUME,
                      bounds={'destinations': 256, 'configurations': len(CONFIGS)})
 
@@ -344,6 +450,14 @@ def run(tier, seed):
 def replay(rec):
     sc = rec['scenario']
     acc = Acc()
+    if sc.get('kind') == 'dynamic':
+        probs = dynamic_one(sc['dll'], sc['k'], sc['action'], sc['first'])
+        if probs:
+            print("REPRODUCED: " + "; ".join(probs[:4]))
+            print("VIOLATION property=%s replay=(this file)" % PROP)
+            return 1
+        print("no violation on this tree")
+        return 0
     if sc.get('kind') == 'bystander':
         bystander(sc['scenario']['dll'], [s['win'] for s in sc['scenario']['stacks'][:2]], rec.get('seed', 0), acc)
     else:
